@@ -55,15 +55,45 @@ func (g *nGen) line(indent int, text, kind string) *tStmt {
 
 func (g *nGen) probeAll(indent int, env nEnv, where string) {
 	for _, n := range g.names {
-		w := mt(env[n]...)
+		if contains(env[n], "?") {
+			continue // a branch no value reaches, or one ti narrows by its own convention
+		}
+		w := nWant(env[n])
 		s := g.line(indent, "dbtp "+n, "probe")
 		s.Want = &w
 		s.RetKind = where
 	}
 }
 
+// nClass is the class a variant is tested with: Array<Integer> -> Array.
+func nClass(v string) string {
+	if i := strings.IndexByte(v, '<'); i > 0 {
+		return v[:i]
+	}
+	return v
+}
+
+// nWant is the printed type of a variant set: a single array variant keeps its
+// element classes, inside a union a container counts with its class.
+func nWant(vs []string) MT {
+	if len(vs) == 1 && strings.HasPrefix(vs[0], "Array<") {
+		return mtArray(strings.Fields(vs[0][6 : len(vs[0])-1])...)
+	}
+	var atoms []string
+	for _, v := range vs {
+		atoms = append(atoms, nClass(v))
+	}
+	return mt(atoms...)
+}
+
 func nLit(cl string) string {
 	switch cl {
+	case "Array<Integer>":
+		return "[1, 2]"
+	case "Array<String>":
+		return "[\"a\", \"b\"]"
+	case "Hash":
+		return "{a: 1}"
 	case "Integer":
 		return "1"
 	case "String":
@@ -89,7 +119,7 @@ type nTest struct {
 func (g *nGen) test(env nEnv, exclude map[string]bool) *nTest {
 	var cands []string
 	for _, n := range g.names {
-		if !exclude[n] && len(env[n]) >= 2 {
+		if !exclude[n] && len(env[n]) >= 2 && !contains(env[n], "?") {
 			cands = append(cands, n)
 		}
 	}
@@ -116,13 +146,70 @@ func (g *nGen) test(env nEnv, exclude map[string]bool) *nTest {
 			return nil
 		}
 		c := Pick(g.r, cls)
-		return &nTest{text: n + ".is_a?(" + c + ")", name: n, then: []string{c}, els: without(vs, c), kind: "is_a?"}
+		return &nTest{text: n + ".is_a?(" + nClass(c) + ")", name: n, then: []string{c}, els: without(vs, c), kind: "is_a?"}
 	}
+}
+
+// redundant returns a test that does not split the variable's variants: a
+// class test of a variable already narrowed to that class, nil? of a variable
+// that is not nil, is_a? of a class that is not among the variants. One side
+// keeps every variant and is judged; the other is reached by no value (or is
+// narrowed to the tested class by ti's own convention) and is not judged.
+func (g *nGen) redundant(env nEnv) *nTest {
+	var cands []string
+	for _, n := range g.names {
+		if len(env[n]) >= 1 && !contains(env[n], "?") {
+			cands = append(cands, n)
+		}
+	}
+	if len(cands) == 0 {
+		return nil
+	}
+	n := Pick(g.r, cands)
+	vs := env[n]
+	dead := []string{"?"}
+	var opts []*nTest
+	if len(vs) == 1 && vs[0] != "NilClass" {
+		opts = append(opts, &nTest{text: n + ".is_a?(" + nClass(vs[0]) + ")", name: n, then: vs, els: dead, kind: "redundant-is_a?"})
+	}
+	if !contains(vs, "NilClass") {
+		opts = append(opts,
+			&nTest{text: n + ".nil?", name: n, then: dead, els: vs, kind: "redundant-nil?"},
+			&nTest{text: "!" + n + ".nil?", name: n, then: vs, els: dead, kind: "redundant-!nil?"})
+	}
+	var others []string
+	for _, c := range []string{"Integer", "String", "Float", "Symbol"} {
+		ok := true
+		for _, v := range vs {
+			// Integer and Float are related through Numeric conventions: keep apart
+			if nClass(v) == c || (c == "Integer" && v == "Float") || (c == "Float" && v == "Integer") {
+				ok = false
+			}
+		}
+		if ok {
+			others = append(others, c)
+		}
+	}
+	if len(others) > 0 {
+		opts = append(opts, &nTest{text: n + ".is_a?(" + Pick(g.r, others) + ")", name: n, then: dead, els: vs, kind: "foreign-is_a?"})
+	}
+	if len(opts) == 0 {
+		return nil
+	}
+	return opts[g.r.Intn(len(opts))]
 }
 
 // cond returns the condition text and the environments of the true and the
 // false side.
 func (g *nGen) cond(env nEnv) (string, nEnv, nEnv, string) {
+	if g.r.Chance(1, 5) {
+		if t := g.redundant(env); t != nil {
+			thenE, elseE := env.clone(), env.clone()
+			thenE[t.name] = t.then
+			elseE[t.name] = t.els
+			return t.text, thenE, elseE, t.kind
+		}
+	}
 	t1 := g.test(env, nil)
 	if t1 == nil {
 		return "", nil, nil, ""
@@ -251,22 +338,38 @@ func genNarrowProgram(r *RNG) []*tStmt {
 	g.line(0, "flag = true", "assign-literal")
 	user := r.Chance(1, 3)
 	if user {
-		g.line(0, "class Foo", "other")
-		g.line(0, "end", "other")
+		g.line(0, "class Foo", "class-decl")
+		g.line(0, "end", "class-decl")
 	}
 	env := nEnv{}
 	pool := []string{"Integer", "String", "Float", "Symbol", "NilClass", "NilClass"}
 	if user {
 		pool = append(pool, "Foo")
 	}
+	if r.Chance(1, 3) {
+		pool = append(pool, "Array<Integer>", "Array<String>", "Hash", "Hash")
+	}
+	// global variables: narrowed like locals wherever they are tested - at top
+	// level, in a method body, in a class's instance or class method
+	globals := r.Chance(1, 4)
 	nv := 1 + r.Intn(3)
 	for i := 0; i < nv; i++ {
 		name := []string{"x", "y", "z"}[i]
+		if globals {
+			name = "$" + name
+		}
 		k := 2 + r.Intn(3)
 		var cls []string
 		for len(cls) < k {
 			c := Pick(r, pool)
-			if !contains(cls, c) {
+			dup := contains(cls, c)
+			for _, have := range cls {
+				// two array variants would merge into one array type
+				if nClass(have) == nClass(c) {
+					dup = true
+				}
+			}
+			if !dup {
 				cls = append(cls, c)
 			}
 		}
@@ -294,21 +397,75 @@ func genNarrowProgram(r *RNG) []*tStmt {
 			g.unrelated(0)
 		}
 	}
-	if r.Chance(1, 4) {
-		// the same statements as the body of a method that is called once
+	if r.Chance(1, 4) || (globals && r.Chance(2, 3)) {
+		// the same statements as the body of a method that is called once; with
+		// globals the method may belong to a class and the assignments may stay
+		// at top level
 		body := g.stmts
 		g.stmts = nil
-		g.line(0, "def narrowed", "other")
+		form := 0
+		if globals {
+			form = r.Intn(3)
+		}
+		outside := globals && r.Bool()
 		for _, s := range body {
-			s.Text = "  " + s.Text
+			if s.Kind == "class-decl" {
+				g.line(0, s.Text, "other")
+			}
+		}
+		if outside {
+			for _, s := range body {
+				if s.Kind == "assign-union" || s.Kind == "assign-literal" {
+					g.line(0, s.Text, "other")
+				}
+			}
+		}
+		ind, tag := "  ", "def:"
+		switch form {
+		case 1:
+			g.line(0, "class Narrower", "other")
+			g.line(1, "def narrowed", "other")
+			ind, tag = "    ", "instance-def:"
+		case 2:
+			g.line(0, "class Narrower", "other")
+			g.line(1, "def self.narrowed", "other")
+			ind, tag = "    ", "class-def:"
+		default:
+			g.line(0, "def narrowed", "other")
+		}
+		if globals {
+			tag = "global:" + tag
+		}
+		for _, s := range body {
+			if (outside && s.Kind == "assign-union") || s.Kind == "class-decl" {
+				continue
+			}
+			s.Text = ind + s.Text
 			if s.RetKind != "" {
-				s.RetKind = "def:" + s.RetKind
+				s.RetKind = tag + s.RetKind
 			}
 			g.stmts = append(g.stmts, s)
 		}
-		g.line(1, "flag", "other")
-		g.line(0, "end", "other")
-		g.line(0, "narrowed", "other")
+		g.line(len(ind)/2, "flag", "other")
+		switch form {
+		case 1:
+			g.line(1, "end", "other")
+			g.line(0, "end", "other")
+			g.line(0, "Narrower.new.narrowed", "other")
+		case 2:
+			g.line(1, "end", "other")
+			g.line(0, "end", "other")
+			g.line(0, "Narrower.narrowed", "other")
+		default:
+			g.line(0, "end", "other")
+			g.line(0, "narrowed", "other")
+		}
+	} else if globals {
+		for _, s := range g.stmts {
+			if s.RetKind != "" {
+				s.RetKind = "global:" + s.RetKind
+			}
+		}
 	}
 	return g.stmts
 }
@@ -323,7 +480,7 @@ func init() {
 			return judgeTyped(c, s.BlackBox(), &tc, "C10")
 		},
 		Run: func(c *CheckCtx) {
-			c.rule = "generated programs: 1-3 union-typed variables (ternaries, indexed array literals; variants Integer, String, Float, Symbol, NilClass, a user class), 1-3 conditionals at top level, each if/unless with optional elsif and else, nested up to depth 3; conditions x.nil?, !x.nil?, x.is_a?(C) and && chains over distinct variables, always splitting the current variants into two non-empty sets; unrelated statements (assignments, calls, inner if/unless on `flag`) inside branches; every variable is probed with dbtp in every branch and after every conditional; oracle: the printed type, parsed as a set, equals the variants the branch admits, and the pre-conditional type afterwards (no branch assigns a probed variable). distinct_nontrivial = distinct programs"
+			c.rule = "generated programs: 1-3 union-typed variables (ternaries, indexed array literals; variants Integer, String, Float, Symbol, NilClass, a user class, Array<Integer>, Array<String>, Hash; local or global names), 1-3 conditionals at top level or in the body of a top-level method, an instance method or a class method (globals assigned inside or at top level), each if/unless with optional elsif and else, nested up to depth 3; conditions x.nil?, !x.nil?, x.is_a?(C) and && chains over distinct variables, splitting the current variants into two non-empty sets, or (one condition in five) not splitting them at all - a class test of a variable already narrowed to that class, nil? of a non-nil variable, is_a? of a foreign class - where only the side that keeps every variant is judged; unrelated statements (assignments, calls, inner if/unless on `flag`) inside branches; every variable is probed with dbtp in every branch and after every conditional; oracle: the printed type, parsed as a set, equals the variants the branch admits, and the pre-conditional type afterwards (no branch assigns a probed variable). distinct_nontrivial = distinct programs"
 			c.assumptions = []string{"the false side of `a && b` admits every variant (nothing is known about either variable)", "candidates found in-process are confirmed on the plain binary"}
 			r := c.RNG.Sub(10)
 			n := c.N(300, 8000)
